@@ -306,7 +306,12 @@ Inductive op :=
    is executing, [eops] while the end-offset resolver is executing (DB.Delete holds no
    index lock during the resolvers; a resolver only runs when the bound lies inside a
    domain).  Delete a b behaves as DeleteC a b [] [] (DomainInv.delete_c_nil). *)
-| DeleteC (a b : Z) (sops eops : list wop).
+| DeleteC (a b : Z) (sops eops : list wop)
+(* Restart of the channel: every open writer is closed, DB.Close, domain.Open on the same
+   file system.  The index that is loaded is the one that was in memory (Writer.Close and
+   the commit / delete paths have flushed it; persistence itself is C02's subject), the
+   file controller starts with no file in use. *)
+| Reopen.
 
 (* func (w WriterConfig) Validate() error; true = passes.
    v.Ternary("end", !w.End.IsZero() && w.End.Before(w.Start), ...); return v.Error() *)
@@ -583,6 +588,18 @@ Definition delete_c (st : db) (a b : Z) (sops eops : list wop) : db * res * list
       end
   end.
 
+(* Close of every writer, DB.Close, domain.Open: all writers closed, no file in use; the
+   pointers, the files and their bytes are what they were.  (After Open the data files
+   that are not full sit in fileController.writers.unopened instead of writers.open; both
+   are "not in use, acquirable while below the nominal size", which is all [acquire]
+   looks at; a tracked writer opened later starts at the file's size, as [try_acquire]
+   computes.) *)
+Definition reopen (st : db) : db :=
+  mkDB (d_nominal st) (d_cap st) (d_ptrs st)
+       (map (fun f => mkFile (f_data f) (f_off f) (f_len f) false) (d_files st))
+       ((fun wr => mkW (w_start wr) (w_end wr) (w_preset wr) (w_prev wr) (w_file wr) (w_fsize wr) true)
+          <$> d_writers st).
+
 Definition step (st : db) (o : op) : db * res :=
   match o with
   | Open w s e k => open_writer st w s e k
@@ -592,6 +609,7 @@ Definition step (st : db) (o : op) : db * res :=
   | Delete a b =>
       let '(ps', r) := delete lin_resolver lin_resolver (d_ptrs st) a b in (with_ptrs st ps', r)
   | DeleteC a b sops eops => fst (delete_c st a b sops eops)
+  | Reopen => (reopen st, ROk)
   end.
 
 (* states/results of the operations that ran inside the resolvers of [o] *)
